@@ -90,6 +90,8 @@ pub fn lvl_of(n: usize) -> usize {
 }
 pub fn has_moves_at(n: usize, lvl: usize) -> bool { lvl < levels() && g().nmoves[n] > 0 }
 pub fn has_moves(n: usize) -> bool { has_moves_at(n, lvl_of(n)) }
+/// Explicit model of the quiescence value (stand pat, then captures/promotions/checks - every move when in check).
+/// Used only where the engine's quiescence is not the subject; the C05/C09 oracles use `q_engine` instead.
 pub fn qvalue_at(n: usize, lvl: usize) -> i64 {
     let gm = g(); let inchk = gm.in_check[n];
     let mut best: i64 = gm.eval[n] as i64; let mut any = false;
@@ -100,9 +102,23 @@ pub fn qvalue_at(n: usize, lvl: usize) -> i64 {
     if !any && inchk { return -(CM as i64); }
     best
 }
+/// "The engine's own quiescence evaluation" of a horizon node, as the property words it: the real
+/// search_until_quiet run with the full window on a searcher that has searched nothing.  The oracle therefore
+/// follows whatever quiescence the engine defines (a consistent redefinition is not a C05 violation) while any
+/// dependence of a leaf's value on the window or on search state shows up as a difference.
+pub fn q_engine(n: usize, lvl: usize) -> i64 {
+    // one oracle searcher per harness run would do (quiescence touches neither the table nor the killers), but a
+    // searcher per call keeps "has searched nothing" literally true; the cost is accepted
+    let mut os = Searcher::new();
+    let white = g().white_root == (lvl % 2 == 0);
+    let b = Board { halfmove_clock: n as u8, fullmove_counter: lvl as u8, active_color: if white { crate::pieces::Color::White } else { crate::pieces::Color::Black } };
+    let v = crate::search::vh::quiesce(&mut os, &b, NEG_INF, INF) as i64;
+    core::mem::forget(os);
+    v
+}
 pub fn value_at(n: usize, lvl: usize, d: u8) -> i64 {
     let gm = g();
-    if d == 0 { return qvalue_at(n, lvl); }
+    if d == 0 { return q_engine(n, lvl); }
     if !has_moves_at(n, lvl) { return if gm.in_check[n] { -(CM as i64) + d as i64 } else { 0 }; }
     let mut best = i64::MIN;
     macro_rules! kid { ($j:expr) => { if $j < br() && ($j as u8) < gm.nmoves[n] { let v = -value_at(child(n, $j), lvl + 1, d - 1); if v > best { best = v; } } }; }
